@@ -54,6 +54,33 @@ pub fn gen_c05(r: &mut Rng, out: &mut dyn Write) {
     }
 }
 
+/// C09: the scale-fixed formats on epochs held in any of the nine scales, half of them aimed so that the view in the
+/// format's scale is a WHOLE second (the branch that drops the fraction), found by scanning a few hundred ns around
+/// the library's own conversion of a whole-second label (the float conversions rarely round-trip exactly)
+pub fn gen_c09(r: &mut Rng, out: &mut dyn Write) {
+    const ALL9: [&str; 9] = ["TAI", "TT", "UTC", "GPST", "GST", "BDT", "QZSST", "ET", "TDB"];
+    const SEC: i128 = 1_000_000_000;
+    let (name, tgt) = *r.pick(&[("fmt_debug", "UTC"), ("fmt_x", "TAI"), ("fmt_X", "TT"), ("fmt_e", "TDB"), ("fmt_E", "ET")]);
+    let src = *r.pick(&ALL9);
+    let secs = r.range_i64(-3_000_000_000, 6_000_000_000) as i128;
+    let frac = if r.chance(1, 2) { 0 } else { r.below(SEC as u64) as i128 };
+    let t = s2e(&format!("{}:{}", dstr(secs * SEC + frac), tgt));
+    let mut e = t.to_time_scale(s2ts(src));
+    if frac == 0 {
+        // look for a neighbour whose view in the target scale has no fraction
+        let base = e;
+        for k in 0..=600i64 {
+            let d = if k % 2 == 0 { k / 2 } else { -(k + 1) / 2 };
+            let c = base + Duration::from_total_nanoseconds(d as i128);
+            if c.to_time_scale(s2ts(tgt)).duration.to_parts().1 % 1_000_000_000 == 0 {
+                e = c;
+                break;
+            }
+        }
+    }
+    writeln!(out, "wrap_a {} {}", name, e2s(e)).unwrap();
+}
+
 pub fn gen_c17(r: &mut Rng, out: &mut dyn Write) {
     if r.chance(1, 2) {
         let name = *r.pick(&CTORS_VIEW);
@@ -129,6 +156,27 @@ pub fn exec(op: &str, a: &[&str]) -> Option<String> {
                     // the pair is printed as observed (not re-normalised through from_parts)
                     let (c, ns) = e.to_tai_parts();
                     Some(format!("ok d {}:{} {}", c, ns, d2s(e.to_tai_duration())))
+                }
+                // the five scale-fixed formats of an epoch HELD IN ANY SCALE: the text of its re-expression in the
+                // format's scale (whose text is C09's subject through fmt_debug / fmt_x / ... on own-scale epochs)
+                "fmt_debug" | "fmt_x" | "fmt_X" | "fmt_e" | "fmt_E" => {
+                    let (ts, w) = match a[0] {
+                        "fmt_debug" => (TimeScale::UTC, format!("{:?}", e)),
+                        "fmt_x" => (TimeScale::TAI, format!("{:x}", e)),
+                        "fmt_X" => (TimeScale::TT, format!("{:X}", e)),
+                        "fmt_e" => (TimeScale::TDB, format!("{:e}", e)),
+                        _ => (TimeScale::ET, format!("{:E}", e)),
+                    };
+                    let c = e.to_time_scale(ts);
+                    let r = match a[0] {
+                        "fmt_debug" => format!("{:?}", c),
+                        "fmt_x" => format!("{:x}", c),
+                        "fmt_X" => format!("{:X}", c),
+                        "fmt_e" => format!("{:e}", c),
+                        _ => format!("{:E}", c),
+                    };
+                    // ... which is also what Display prints for the re-expressed epoch
+                    Some(format!("ok t {} {} {}", crate::codec::str2hex(&w), crate::codec::str2hex(&r), crate::codec::str2hex(&format!("{}", c))))
                 }
                 "to_mjd_tai_d" => f(e.to_mjd_tai(Unit::Day), e.to_mjd_tai_days()),
                 "to_mjd_tai_s" => f(e.to_mjd_tai(Unit::Second), e.to_mjd_tai_seconds()),
